@@ -27,6 +27,15 @@ def width_of(e):
     return None
 
 
+def _w(a, env):
+    """Width of an operand; for a signal of undeclared width (an input port of another class) the caller may supply it
+    in the environment under '$w:<name>'."""
+    w = width_of(a)
+    if w is None and isinstance(a, E) and a.op == 'sig':
+        w = env.get('$w:' + a.args[0].name)
+    return w
+
+
 def ev(e, env):
     """Value of `e` under env (Amaranth arithmetic widens, so plain Python ints; truncation happens at the store)."""
     if not isinstance(e, E):
@@ -56,7 +65,7 @@ def ev(e, env):
     if op == 'cat':
         r, sh = 0, 0
         for a in e.args:
-            w = width_of(a)
+            w = _w(a, env)
             if w is None:
                 raise NoEval('cat of unknown width: ' + e.canon())
             r |= (ev(a, env) & _mask(w)) << sh
@@ -64,7 +73,7 @@ def ev(e, env):
         return r
     if op == '~':
         a = e.args[0]
-        w = width_of(a)
+        w = _w(a, env)
         if w is None:
             raise NoEval('~ of unknown width: ' + e.canon())
         return ~ev(a, env) & _mask(w)
@@ -151,6 +160,41 @@ class Stepper:
         if both:
             raise AnalysisError('signals driven from both comb and a clocked domain: %s' % sorted(both))
         self.fsms = {f.id: f for f in ir.fsms}
+
+    def restrict(self, observed):
+        """Cone of influence: keep only the assignments that can (transitively, through guards, right-hand sides and FSM
+        edges) influence the signals in `observed` or any FSM transition.  Registers outside the cone are dropped from
+        `regs` -- they cannot change what is observed, so leaving them out of the explored state is exact, not an
+        approximation.  Returns the cone (set of signal names)."""
+        cone = set(observed)
+        for f in self.fsms.values():
+            for e in f.edges:
+                for l in e.guard:
+                    if isinstance(l.e, E):
+                        cone |= l.e.sigs()
+        changed = True
+        allasg = self.comb + self.sync
+        while changed:
+            changed = False
+            for a in allasg:
+                if not (set(a.lhs_sigs()) & cone):
+                    continue
+                reads = set(a.rhs.sigs()) if isinstance(a.rhs, E) else set()
+                for l in a.guard:
+                    if isinstance(l.e, E):
+                        reads |= l.e.sigs()
+                if isinstance(a.lhs, E):
+                    for x in a.lhs.walk():
+                        if x.op == 'arr' and isinstance(x.args[0], E):
+                            reads |= x.args[0].sigs()          # the index of an array store
+                if not reads <= cone:
+                    cone |= reads
+                    changed = True
+        self.comb = [a for a in self.comb if set(a.lhs_sigs()) & cone]
+        self.sync = [a for a in self.sync if set(a.lhs_sigs()) & cone]
+        self.regs = sorted({t for a in self.sync for t in a.lhs_sigs()})
+        self.comb_sigs = sorted({t for a in self.comb for t in a.lhs_sigs()})
+        return cone
 
     def _active(self, item, env):
         st = getattr(item, 'state', None)
